@@ -68,7 +68,7 @@ class RigLoop(VirtualTimeLoop):
 class Rig:
     """one listener under test + the line writer"""
 
-    def __init__(self, loop: RigLoop) -> None:
+    def __init__(self, loop: RigLoop, cbs: str = "both") -> None:
         from async_upnp_client import advertisement, search, ssdp, ssdp_listener
         from async_upnp_client.ssdp_listener import SsdpDeviceTracker, SsdpListener
 
@@ -101,7 +101,11 @@ class Rig:
         ssdp.datetime = FakeNow
         ssdp_listener.datetime = FakeNow
         self.tracker = SsdpDeviceTracker()
-        self.listener = SsdpListener(async_callback=self._acb, callback=self._cb, device_tracker=self.tracker, loop=loop)
+        kw = {"both": dict(async_callback=self._acb, callback=self._cb), "sync": dict(callback=self._cb),
+              "async": dict(async_callback=self._acb)}[cbs]
+        self.listener = SsdpListener(device_tracker=self.tracker, loop=loop, **kw)
+        self.lines.append(f"mode {cbs}")
+        self.tags.add(f"cbs:{cbs}")
         self.captured: Optional[Tuple] = None
 
     def restore(self) -> None:
@@ -219,13 +223,13 @@ def build_packet(first_line: str, headers: List[List[str]]) -> bytes:
     return (first_line + "\r\n" + "".join(f"{k}:{v}\r\n" for k, v in headers) + "\r\n").encode()
 
 
-def run_ops(ops: List[Any]) -> Tuple[List[str], List[str]]:
+def run_ops(ops: List[Any], cbs: str = "both") -> Tuple[List[str], List[str]]:
     """run one history on a fresh listener; returns (lines, tags)"""
     loop = RigLoop()
     asyncio.set_event_loop(loop)
     rig = None
     try:
-        rig = Rig(loop)
+        rig = Rig(loop, cbs)
 
         async def go():
             await rig.start()
@@ -266,7 +270,7 @@ def op_kind(op) -> str:
 
 
 def run_recipe(ctx: Optional[Ctx], recipe: Dict[str, Any], cid: str) -> Case:
-    lines, tags = run_ops(recipe["ops"])
+    lines, tags = run_ops(recipe["ops"], recipe.get("cbs", "both"))
     nontrivial = any(ln.startswith("cb ") for ln in lines) and sum(1 for ln in lines if ln.startswith("snap ")) >= 2
     return Case(cid, lines, recipe, nontrivial, tags)
 
